@@ -317,7 +317,8 @@ func (a *Address) populateFromBytes(data []byte) error {
 	// Byron Addresses
 	if a.addressType == AddressTypeByron {
 		var rawAddr byronAddress
-		if _, err := cbor.Decode(data, &rawAddr); err != nil {
+		bytesRead, err := cbor.Decode(data, &rawAddr)
+		if err != nil {
 			return err
 		}
 		payloadBytes, ok := rawAddr.Payload.Content.([]byte)
@@ -332,9 +333,20 @@ func (a *Address) populateFromBytes(data []byte) error {
 				"invalid Byron address data: checksum does not match",
 			)
 		}
+		if bytesRead != len(data) {
+			return fmt.Errorf(
+				"invalid Byron address data: %d unexpected trailing byte(s)",
+				len(data)-bytesRead,
+			)
+		}
 		var byronAddr byronAddressPayload
-		if _, err := cbor.Decode(payloadBytes, &byronAddr); err != nil {
+		if n, err := cbor.Decode(payloadBytes, &byronAddr); err != nil {
 			return err
+		} else if n != len(payloadBytes) {
+			return fmt.Errorf(
+				"invalid Byron address payload: %d unexpected trailing byte(s)",
+				len(payloadBytes)-n,
+			)
 		}
 		if len(byronAddr.Hash) != AddressHashSize {
 			return errors.New(
